@@ -17,7 +17,9 @@ FAMILY = ["empty", "with only", "with+autoescape only", "raw text", "arithmetic"
           "super() as operand (position k%6, chain depth m%3+1)", "super() in three operand positions per level", "macro/self.block()/import in value position",
           "include and call block inside used captures", "host function/filter/test re-entering via macros", "custom formatter re-entering", "super() in value position + include + host callback",
           "debug() / printed loop, namespace, self, macro, State (output must not show the budget)", "block re-entering itself via self.x()",
-          "parent definition re-enters the block via self.x() under super() (depth m%3+1)", "blocks a <-> b through self under super()", "re-entry under super() with inner work, includes, value-position super()"]
+          "parent definition re-enters the block via self.x() under super() (depth m%3+1)", "blocks a <-> b through self under super()", "re-entry under super() with inner work, includes, value-position super()",
+          "fails without fuel: macro recursion beyond the recursion limit", "fails without fuel: self-including template beyond the recursion limit",
+          "fails without fuel: with-nesting beyond the recursion limit", "fails without fuel: error kind k%7 behind m%4 levels of macro/include/block", "fails without fuel: strict undefined"]
 NPROC = 12
 
 
@@ -59,15 +61,28 @@ def instances(chk):
 
 def strip_top(o):
     """(output without the `-7 top` suffix, top kind or None)"""
+    top = None
     if len(o) >= 2 and o[-2] == -7:
-        return o[:-2], o[-1]
-    return o, None
+        o, top = o[:-2], o[-1]
+    if len(o) >= 3 and o[-3] == -8:
+        o = o[:-3]
+    return o, top
+
+
+def written_flags(o):
+    """(eq, pre) of an error output: the output written before the error equals / is a prefix of the unlimited render's"""
+    if len(o) >= 2 and o[-2] == -7:
+        o = o[:-2]
+    if len(o) >= 3 and o[-3] == -8:
+        return o[-2], o[-1]
+    return 1, 1
 
 
 def parse_out(o):
     """-> dict(kind= ok|err|panic|crash, code (root cause), top, same, det, levels, probes)"""
     if not o or o[0] == "CRASH":
         return {"kind": "crash"}
+    eq, pre = written_flags(o) if o and o[0] == 1 else (1, 1)
     o, top = strip_top(o)
     if o[0] == 2:
         return {"kind": "panic"}
@@ -76,7 +91,7 @@ def parse_out(o):
         return {"kind": "ok", "same": o[1], "det": o[2], "levels": (o[3], o[4]), "probes": list(zip(rest[0::2], rest[1::2])), "np": np_}
     if o[0] == 1:
         np_, rest = o[3], o[4:]
-        return {"kind": "err", "code": o[1], "top": o[1] if top is None else top, "det": o[2], "probes": list(zip(rest[0::2], rest[1::2])), "np": np_}
+        return {"kind": "err", "code": o[1], "top": o[1] if top is None else top, "eq": eq, "pre": pre, "det": o[2], "probes": list(zip(rest[0::2], rest[1::2])), "np": np_}
     return {"kind": "crash"}
 
 
@@ -104,7 +119,7 @@ def phase1(chk, insts):
             continue
         fr = 0 if free["kind"] == "ok" else free["code"]
         bfr = 0 if big["kind"] == "ok" else big["code"]
-        if fr != bfr or free.get("top") != big.get("top") or (big["kind"] == "ok" and big["same"] != 1) or big["det"] != 1 or free["det"] != 1:
+        if fr != bfr or free.get("top") != big.get("top") or big.get("eq", 1) != 1 or (big["kind"] == "ok" and big["same"] != 1) or big["det"] != 1 or free["det"] != 1:
             what = ("the output of a render with a fuel budget (2^40, never exhausted) differs from the unlimited-fuel output" if big["kind"] == "ok" and fr == 0 and big["same"] != 1
                     else "budget 2^40 changes the result of the render or repetitions differ")
             problems.append((what, list(inst) + [BIG], {"nofuel": outs[False][2 * i], "big": outs[False][2 * i + 1]}))
@@ -189,6 +204,8 @@ def literal_property(info, rows):
                 bad.append(("out of fuel above a budget that succeeds (no single threshold)", b))
             if o["top"] != 21:
                 wrapped.append((o["top"], b))
+            if o["pre"] != 1:
+                bad.append(("the output written before running out of fuel is not a prefix of the unlimited render's output", b))
             continue
         if o["kind"] == "ok":
             if info["fr"] != 0 or o["same"] != 1:
@@ -199,6 +216,8 @@ def literal_property(info, rows):
             if len(o["probes"]) != len(info["probe_c"]):
                 bad.append(("successful render skipped a probe", b))
         else:
+            if o["eq"] != 1:
+                bad.append(("a render that fails like the unlimited render wrote different output before the error", b))
             if o["code"] != info["fr"] or o["top"] != info["fr_top"]:
                 bad.append(("error differs from the unlimited render's (neither its error nor OutOfFuel)", b))
     if len(cons) > 1:
